@@ -27,6 +27,8 @@ def cells(tier):
         sc = scen(pool(size, "SimpleTaskPool"), [[S("S", 2), S("T", 1)], [cgroup("S"), S("U", 1)]], outcomes=["ret"])
         out.append(cell(f"simple s{size} S2,T1|cgroupS,U1", sc, MON))
     for size in [1, 2]:
+        sc = scen(pool(size), [[A("A", 1)], [cgroup("A"), A("B", 1, name="apply-work-group-0", needs_cancelled="A"), A("C", 1), M("M", 1, 1)]], outcomes=["ret"])
+        out.append(cell(f"s{size} A1|cgroupA,B1 named like A's generated name,C1,M1", sc, MON))
         sc = scen(pool(size), [[A("A", 3)], [A("B", 2)], [cgroup("A"), A("C", 2)]], outcomes=["ret"])
         out.append(cell(f"s{size} A3|B2|cgroupA,C2 (cancelled waiting spawner)", sc, MON))
     if not q:
